@@ -1,7 +1,7 @@
 (* C07 — every ping is answered exactly once with a pong carrying the same payload. *)
 From Coq Require Import ZArith List.
 From WS Require Import Base.Res Base.Bytes Spec.Frame Spec.Legal Model.Recv Model.Conn Model.Send
-  Gen.GenAbnf Proofs.RecvSpec Proofs.ConnSpec Proofs.ConnProof Proofs.SendProof.
+  Gen.GenAbnf Proofs.RecvSpec Proofs.ConnSpec Proofs.ConnProof Proofs.SendProof Base.GenPrelude Spec.Stream Model.Xport Proofs.WsDrainSpec Proofs.WsDrainProof.
 Import ListNotations.
 Open Scope Z_scope.
 
@@ -46,3 +46,27 @@ Example C07_ex :
      {| a_fin := 1; a_rsv1 := 0; a_rsv2 := 0; a_rsv3 := 0; a_opcode := 9; a_mask := 0; a_data := [] |}])
   = [OPong [7]; OPong []].
 Proof. vm_compute. reflexivity. Qed.
+
+(* END TO END: the bytes the client writes while the caller drains the connection are exactly the
+   automatic replies (one pong per ping with the same payload, the close reply), each masked with
+   the next fresh key, in order -- and nothing else. *)
+Theorem C07_end_to_end_writes : forall fire skip control l ks,
+  script_ok l = true -> no_reset l = true -> bytes_ok (flatten l) -> keys_enough ks l ->
+  let rs := replies_of fire skip control true cf_init
+              (stream_results (code_verdict skip) (drain_fuel l) (flatten l)) in
+  writes_of (all_io (snd (ws_drain (drain_fuel l) control (ws_init (mk_xport l) ks fire skip)))) =
+    zip_replies rs ks /\
+  (length rs <= length ks)%nat /\
+  map Ok (zip_replies rs ks) = map (fun rk => reply_bytes (fst rk) (snd rk)) (combine rs ks).
+Proof. exact ws_drain_writes. Qed.
+Print Assumptions C07_end_to_end_writes.
+
+(* ... and each reply is written BEFORE the client reads anything beyond the frame that caused it:
+   replaying the I/O log against the script, the number of stream bytes the transport still holds
+   at each write equals the length of the stream after the triggering frame. *)
+Theorem C07_pong_before_next_read : forall fire skip control l ks,
+  script_ok l = true -> no_reset l = true -> bytes_ok (flatten l) -> keys_enough ks l ->
+  write_marks l (all_io (snd (ws_drain (drain_fuel l) control (ws_init (mk_xport l) ks fire skip)))) =
+  reply_marks fire skip control true cf_init (drain_fuel l) (flatten l).
+Proof. exact pong_before_next_read. Qed.
+Print Assumptions C07_pong_before_next_read.
